@@ -1258,7 +1258,7 @@ def tempctr_leg(ctx, stats):
         mlines.append(f"tc {start} " + ",".join(map(str, sched)))
     rc, model, err = common.run_exec(common.driver_bin("C12"), [], mlines)
     for l, ml, a, m in zip(lines, mlines, impl, model + ["<missing>"] * len(lines)):
-        if m != f"{a} | {a}":
+        if m != f"{a} | {a} | {a}":
             ctx.violation("model/implementation disagreement on protocol tempctr (Model/TempCounter.lean vs samlang_heap::TempPStrCounter)",
                           {"protocol": "tempctr", "line": l, "schedule_line": ml[:300], "impl": a[:300], "model": m[:600], "broken": "correspondence tempctr"}, no_input=True)
             return
